@@ -278,8 +278,26 @@ impl Campaign for C13 {
                     3 => (0..towers, 0u8..12).prop_map(|(t, d)| Step::Slow(t, d)),
                 ];
                 // every history opens with an outage and a revocation, so that there is something to retry
-                ((0..towers), proptest::collection::vec(step, 1..8)).prop_map(move |(t0, mut steps)| {
-                    let mut s = vec![Step::Fail(t0, Mode::Down), Step::Revoke(1)];
+                let slow_mode = prop_oneof![Just(Mode::Reset), Just(Mode::Garbage), Just(Mode::BadGateway), Just(Mode::Subscription), Just(Mode::MalformedSig)];
+                ((0..towers), proptest::collection::vec(step, 1..8), 0u8..5, slow_mode, 8u8..11, 4u8..15, 2u8..13, 0u8..4).prop_map(move |(t0, mut steps, opening, m, sd, w1, w2, recover_now)| {
+                    let mut t = t;
+                    let mut s = if opening == 0 {
+                        // one history in five: a slow tower failing with an answer (requests are in flight for most of the
+                        // time), revocations arriving while the retrier is at work, and (half of the time) the tower coming
+                        // back while that retry loop is still going
+                        steps.truncate(4);
+                        t = 4;
+                        let mut s = vec![Step::Slow(t0, sd), Step::Fail(t0, m), Step::Revoke(1), Step::Wait(w1), Step::Revoke(2), Step::Wait(w2)];
+                        if recover_now > 0 {
+                            s.push(Step::Recover(t0));
+                            s.push(Step::Wait(30));
+                        } else {
+                            s.push(Step::Revoke(3));
+                        }
+                        s
+                    } else {
+                        vec![Step::Fail(t0, Mode::Down), Step::Revoke(1)]
+                    };
                     // (the generated mode of a later Fail step replaces this one)
                     s.append(&mut steps);
                     Case { towers, max_retry_time: t, auto_retry_delay: d, steps: s }
